@@ -1,8 +1,18 @@
-"""C08 translator: reads the tail rule (and, informationally, the other loop tests) of
-`estimate_importances_minibatches` out of outrank/core_ranking.py with `ast`.  Fail closed: anything that is not
-recognised raises TranslateError; nothing is guessed.
+"""C08 translator: reads the tail rule of `estimate_importances_minibatches` out of outrank/core_ranking.py with `ast`.
+Fail closed: anything that is not recognised raises TranslateError; nothing is guessed.
 
-The tail rule is normalised to `min_used` = the smallest size of a final partial batch that is still processed
+Where it looks: the whole body of `estimate_importances_minibatches`, including nested function definitions / closures /
+generators, and every module-level function it (transitively) calls.  What it looks for: `if` statements whose test is ONE
+comparison (> >= < <=) between a *size expression* and an *integer constant expression*, and whose body leads to a call of
+`compute_batch_ranking` (directly, or through a nested / module-level function that reaches it).
+  size expression     = len(<name>) / len(<name>[...]) / a name bound (anywhere in the searched code) to such a len(...)
+  constant expression = integer literals combined by + - * ** << (e.g. 2**10), or a name bound exactly once, at module
+                        level or in the searched code, to such an expression
+The mini-batch trigger (`len(buffer) >= args.minibatch_size`) is not a candidate: its right-hand side is not a constant.
+Exactly one candidate must exist; zero or several -> TranslateError (the caller then holds the constant by the
+correspondence only, see tools/props/c08.py).
+
+The rule is normalised to `min_used` = the smallest size of a final partial batch that is still processed
 (`n > 2**10` and `n >= 1025` both give 1025), so that an equivalent rewrite keeps the check quiet while `>=` for `>`
 or another constant does not.
 """
@@ -11,19 +21,26 @@ from __future__ import annotations
 import ast
 import os
 
+TARGET = "estimate_importances_minibatches"
+SCORER = "compute_batch_ranking"
+
 
 class TranslateError(Exception):
     pass
 
 
-def _const(node):
-    """Integer constant expressions only: literals, + - * ** <<, unary minus."""
+def _const(node, env, depth=0):
+    """Integer constant expressions only: literals, + - * ** <<, unary minus, names bound once to such an expression."""
+    if depth > 8:
+        raise TranslateError("constant expression too deep")
     if isinstance(node, ast.Constant) and isinstance(node.value, int) and not isinstance(node.value, bool):
         return node.value
+    if isinstance(node, ast.Name) and node.id in env:
+        return _const(env[node.id], env, depth + 1)
     if isinstance(node, ast.UnaryOp) and isinstance(node.op, ast.USub):
-        return -_const(node.operand)
+        return -_const(node.operand, env, depth + 1)
     if isinstance(node, ast.BinOp):
-        a, b = _const(node.left), _const(node.right)
+        a, b = _const(node.left, env, depth + 1), _const(node.right, env, depth + 1)
         if isinstance(node.op, ast.Pow):
             if b < 0 or b > 64:
                 raise TranslateError("exponent out of range")
@@ -38,12 +55,31 @@ def _const(node):
             if b < 0 or b > 64:
                 raise TranslateError("shift out of range")
             return a << b
-    raise TranslateError("not an integer constant expression: %s" % ast.dump(node)[:200])
+    raise TranslateError("not an integer constant expression")
 
 
-def _is_len_of(node, name):
-    return (isinstance(node, ast.Call) and isinstance(node.func, ast.Name) and node.func.id == "len"
-            and len(node.args) == 1 and isinstance(node.args[0], ast.Name) and node.args[0].id == name)
+def _is_const(node, env):
+    try:
+        _const(node, env)
+        return True
+    except TranslateError:
+        return False
+
+
+def _is_len_call(node):
+    if not (isinstance(node, ast.Call) and isinstance(node.func, ast.Name) and node.func.id == "len" and len(node.args) == 1
+            and not node.keywords):
+        return False
+    a = node.args[0]
+    if isinstance(a, ast.Subscript):
+        a = a.value
+    return isinstance(a, ast.Name)
+
+
+def _called_names(node):
+    for n in ast.walk(node):
+        if isinstance(n, ast.Call) and isinstance(n.func, ast.Name):
+            yield n.func.id
 
 
 def extract(repo):
@@ -53,62 +89,115 @@ def extract(repo):
         tree = ast.parse(src)
     except Exception as e:
         raise TranslateError("cannot parse %s: %s" % (path, e))
-    fn = [n for n in tree.body if isinstance(n, ast.FunctionDef) and n.name == "estimate_importances_minibatches"]
-    if len(fn) != 1:
-        raise TranslateError("estimate_importances_minibatches not found exactly once")
-    fn = fn[0]
-    loops = [n for n in fn.body if isinstance(n, ast.For)]
-    if len(loops) != 1:
-        raise TranslateError("expected exactly one top-level for loop in estimate_importances_minibatches")
-    loop = loops[0]
-    after = fn.body[fn.body.index(loop) + 1:]
-    # names bound to len(line_tmp_storage) after the loop
-    aliases = set()
-    for st in after:
-        if isinstance(st, ast.Assign) and len(st.targets) == 1 and isinstance(st.targets[0], ast.Name) \
-                and _is_len_of(st.value, "line_tmp_storage"):
-            aliases.add(st.targets[0].id)
+    module_funcs = {}
+    for n in tree.body:
+        if isinstance(n, (ast.FunctionDef, ast.AsyncFunctionDef)):
+            if n.name in module_funcs:
+                raise TranslateError("function %s defined twice" % n.name)
+            module_funcs[n.name] = n
+    if TARGET not in module_funcs:
+        raise TranslateError("%s not found" % TARGET)
+    target = module_funcs[TARGET]
+
+    # the searched code: the target (with everything nested in it) + module-level functions it transitively calls
+    # (the scorer itself and what lies below it is not part of the streaming loop)
+    searched = [target]
+    seen = {TARGET}
+    todo = [target]
+    while todo:
+        f = todo.pop()
+        for name in _called_names(f):
+            if name in module_funcs and name not in seen and name != SCORER:
+                seen.add(name)
+                searched.append(module_funcs[name])
+                todo.append(module_funcs[name])
+    nested = {}
+    for f in searched:
+        for n in ast.walk(f):
+            if isinstance(n, (ast.FunctionDef, ast.AsyncFunctionDef)) and n is not f and n.name not in module_funcs:
+                nested[n.name] = n
+    funcs = dict(module_funcs)
+    funcs.update(nested)
+
+    # which functions reach the scorer
+    reach_cache = {}
+
+    def reaches(node, stack=()):
+        for name in _called_names(node):
+            if name == SCORER:
+                return True
+            if name in funcs and name not in stack:
+                if name not in reach_cache:
+                    reach_cache[name] = reaches(funcs[name], stack + (name,))
+                if reach_cache[name]:
+                    return True
+        return False
+
+    # name bindings: size aliases (bound to len(...)) and constants (bound exactly once)
+    assigns = {}
+    for scope in [tree] + searched:
+        body_nodes = tree.body if scope is tree else list(ast.walk(scope))
+        for st in body_nodes:
+            tgt = val = None
+            if isinstance(st, ast.Assign) and len(st.targets) == 1 and isinstance(st.targets[0], ast.Name):
+                tgt, val = st.targets[0].id, st.value
+            elif isinstance(st, ast.AnnAssign) and isinstance(st.target, ast.Name) and st.value is not None:
+                tgt, val = st.target.id, st.value
+            if tgt is not None:
+                assigns.setdefault(tgt, [])
+                if not any(v is val for v in assigns[tgt]):
+                    assigns[tgt].append(val)
+    size_alias = {k for k, vs in assigns.items() if vs and all(_is_len_call(v) for v in vs)}
+    env = {k: vs[0] for k, vs in assigns.items() if len(vs) == 1 and not _is_len_call(vs[0])}
+    env = {k: v for k, v in env.items() if _is_const(v, env)}
 
     def is_size(node):
-        return _is_len_of(node, "line_tmp_storage") or (isinstance(node, ast.Name) and node.id in aliases)
+        return _is_len_call(node) or (isinstance(node, ast.Name) and node.id in size_alias)
 
     cands = []
-    for st in after:
-        if isinstance(st, ast.If) and isinstance(st.test, ast.Compare) and len(st.test.ops) == 1:
-            left, op, right = st.test.left, st.test.ops[0], st.test.comparators[0]
-            calls = [n for n in ast.walk(st) if isinstance(n, ast.Call) and isinstance(n.func, ast.Name)
-                     and n.func.id == "compute_batch_ranking"]
-            if not calls:
+    for f in searched:
+        for st in ast.walk(f):
+            if not (isinstance(st, ast.If) and isinstance(st.test, ast.Compare) and len(st.test.ops) == 1):
                 continue
-            if is_size(left):
-                c = _const(right)
-                if isinstance(op, ast.Gt):
-                    cands.append(("len > %d" % c, c + 1, st.lineno, bool(st.orelse)))
-                elif isinstance(op, ast.GtE):
-                    cands.append(("len >= %d" % c, c, st.lineno, bool(st.orelse)))
-                else:
-                    raise TranslateError("tail rule uses unsupported comparison %s" % type(op).__name__)
-            elif is_size(right):
-                c = _const(left)
-                if isinstance(op, ast.Lt):
-                    cands.append(("%d < len" % c, c + 1, st.lineno, bool(st.orelse)))
-                elif isinstance(op, ast.LtE):
-                    cands.append(("%d <= len" % c, c, st.lineno, bool(st.orelse)))
-                else:
-                    raise TranslateError("tail rule uses unsupported comparison %s" % type(op).__name__)
+            left, op, right = st.test.left, st.test.ops[0], st.test.comparators[0]
+            if is_size(left) and _is_const(right, env):
+                size_left, c = True, _const(right, env)
+            elif is_size(right) and _is_const(left, env):
+                size_left, c = False, _const(left, env)
             else:
-                raise TranslateError("a compute_batch_ranking call after the loop is guarded by an unrecognised test")
-    if len(cands) != 1:
-        raise TranslateError("expected exactly one guarded tail batch after the loop, found %d" % len(cands))
-    text, min_used, lineno, has_else = cands[0]
-    if has_else:
-        raise TranslateError("tail rule has an else branch")
-    info = {"tail_text": text, "tail_min_used": min_used, "tail_lineno": lineno}
-    # informational: the trigger and the subsampling test inside the loop (not fail-closed)
-    for n in ast.walk(loop):
-        if isinstance(n, ast.If) and isinstance(n.test, ast.Compare) and len(n.test.ops) == 1:
-            try:
-                info.setdefault("loop_tests", []).append(ast.unparse(n.test))
-            except Exception:
-                pass
+                continue
+            if not isinstance(op, (ast.Gt, ast.GtE, ast.Lt, ast.LtE)):
+                continue
+            body = ast.Module(body=st.body, type_ignores=[])
+            if not reaches(body):
+                continue
+            if st.orelse:
+                raise TranslateError("tail rule at line %d has an else branch" % st.lineno)
+            if size_left and isinstance(op, ast.Gt):
+                cands.append(("len > %d" % c, c + 1, st.lineno, f.name))
+            elif size_left and isinstance(op, ast.GtE):
+                cands.append(("len >= %d" % c, c, st.lineno, f.name))
+            elif not size_left and isinstance(op, ast.Lt):
+                cands.append(("%d < len" % c, c + 1, st.lineno, f.name))
+            elif not size_left and isinstance(op, ast.LtE):
+                cands.append(("%d <= len" % c, c, st.lineno, f.name))
+            else:
+                raise TranslateError("tail rule at line %d bounds the remainder from above" % st.lineno)
+    uniq = {(c[2], c[3]): c for c in cands}
+    if len(uniq) != 1:
+        raise TranslateError("expected exactly one size-vs-constant test guarding a %s call in %s and its helpers, found %d%s" % (
+            SCORER, TARGET, len(uniq), (" (lines %s)" % sorted(k[0] for k in uniq)) if uniq else ""))
+    text, min_used, lineno, where = list(uniq.values())[0]
+    info = {"tail_text": text, "tail_min_used": min_used, "tail_lineno": lineno, "tail_in_function": where,
+            "searched_functions": [f.name for f in searched] + sorted(nested)}
+    # informational: the other single-comparison tests of the searched code (not fail-closed)
+    tests = []
+    for f in searched:
+        for n in ast.walk(f):
+            if isinstance(n, ast.If) and isinstance(n.test, ast.Compare) and len(n.test.ops) == 1:
+                try:
+                    tests.append(ast.unparse(n.test))
+                except Exception:
+                    pass
+    info["loop_tests"] = tests[:12]
     return info
